@@ -3,17 +3,23 @@ EXTENDS SpecGen, Json
 Bound == Len(docs) <= 3
 EmitScn == Len(docs) = 0 => PrintT(<<"SCN", ToJson([scn |-> scn])>>)
 NoNext == FALSE /\ UNCHANGED vars
-M(f, e, er, t, c) == [fn |-> f, ep |-> e, errs |-> er, tags |-> t, cpref |-> c, name |-> "own"]
+M(f, e, er, t, c) == [fn |-> f, ep |-> e, errs |-> er, tags |-> t, cpref |-> c, name |-> "own", meta |-> "none"]
 N(m, n) == [m EXCEPT !.name = n]
+F(m) == [m EXCEPT !.meta = "full"]         \* annotated with its own summary, description, deprecated, example, servers, docs, security
+X(m) == [m EXCEPT !.meta = "schemas"]      \* annotated with explicit params / result schemas
 Fns == {"f1", "f2", "f3", "f4"}
 Kinds == {"openapi31", "openapi30", "openrpc"}
 Extractors(k) == IF k = "openrpc" THEN {"pyd", "doc"} ELSE {"base", "pyd", "doc+pyd"}
-MethodAlpha == {M(f, e, er, t, c) : f \in Fns, e \in {"root", "api"}, er \in {"unset", "own", "shared"}, t \in {"none", "t1"}, c \in {"none", "P_"}}
+MethodAlpha0 == {M(f, e, er, t, c) : f \in Fns, e \in {"root", "api"}, er \in {"unset", "own", "shared"}, t \in {"none", "t1"}, c \in {"none", "P_"}}
+MethodAlpha == MethodAlpha0 \cup {F(m) : m \in MethodAlpha0} \cup {X(m) : m \in MethodAlpha0}
 MethodSmall == {M("f1", "root", "shared", "t1", "P_"), M("f2", "root", "shared", "none", "none"), M("f3", "root", "own", "t1", "none"),
                 M("f4", "root", "unset", "none", "none"), M("f1", "api", "own", "none", "none"), M("f2", "api", "unset", "t1", "P_"),
                 M("f3", "api", "shared", "none", "P_"), M("f1", "root", "unset", "none", "none"),
                 \* different functions exposed under ONE name on different endpoints
-                N(M("f1", "root", "unset", "none", "P_"), "dup"), N(M("f2", "api", "own", "none", "none"), "dup"), N(M("f3", "api", "unset", "t1", "none"), "dup")}
+                N(M("f1", "root", "unset", "none", "P_"), "dup"), N(M("f2", "api", "own", "none", "none"), "dup"), N(M("f3", "api", "unset", "t1", "none"), "dup"),
+                \* annotated methods next to unannotated ones: nothing of one may show up in the other's entry
+                F(M("f2", "root", "unset", "none", "none")), F(M("f3", "root", "own", "t1", "P_")), F(M("f4", "api", "shared", "none", "none")),
+                F(N(M("f1", "api", "unset", "none", "none"), "dup")), X(M("f4", "root", "unset", "none", "none")), X(M("f1", "root", "own", "t1", "P_"))}
 Exposed(m) == IF m.name = "own" THEN m.fn ELSE m.name
 DistinctNames(s) == \A i, j \in DOMAIN s : i # j => ~(Exposed(s[i]) = Exposed(s[j]) /\ s[i].ep = s[j].ep)
 S(k, x, p, ms) == [kind |-> k, extractor |-> x, prefix |-> p, statusmap |-> "none", methods |-> ms]
